@@ -173,6 +173,7 @@ def _data(rng, kind, what=None):
 def generate(rng, tier, idx):
     subj = _subject(rng)
     kind = subj['kind']
+    use_pristine = rng.random() < 0.5
     if rng.random() < 0.35:
         subj['pos'] = rng.choice([1, 2])
         if zoo.short(subj['cls']) in ('GaussianKDE', 'TruncatedGaussian', 'GaussianMultivariate') \
@@ -215,7 +216,7 @@ def generate(rng, tier, idx):
     if rng.random() < 0.25 and kind in ('gmv', 'vine'):
         # "rejects ... and stays unfitted" is stated for multivariate models only
         ops.append({'op': 'misuse_after_refusal', 'data': _data(rng, kind, 'invalid')})
-    return {'subject': subj, 'ops': ops}
+    return {'subject': subj, 'ops': ops, 'pristine': use_pristine}
 
 
 def simplify(run):
@@ -329,6 +330,17 @@ def _fit(model, subj, data, state, poison, pseed, arm):
         SwitchMarginal.armed = False
 
 
+def pristine_twin(subj, dataspec, state, poison, pseed, arm):
+    """Runs in a pristine grandchild process: fresh object, one fit, observation."""
+    twin = _fresh(subj)
+    data = _make_data(dataspec)
+    out = _fit(twin, subj, data, state, poison, pseed, arm)
+    rec = {'outcome': outcome_class(out)}
+    if out[0] == 'ok':
+        rec['obs'] = obs.observe(twin, subj['kind'], data)
+    return rec
+
+
 def _call_fit(model, subj, data):
     if subj['kind'] == 'vine':
         return model.fit(data, truncated=subj.get('truncated', 3))
@@ -369,6 +381,18 @@ def execute(run):
     subj = run['subject']
     kind = subj['kind']
     cls_short = zoo.short(subj['cls'])
+    pristine = None
+    if run.get('pristine'):
+        from copsim.seams import Pristine
+        pristine = Pristine()
+    try:
+        return _execute(run, ctx, subj, kind, cls_short, pristine)
+    finally:
+        if pristine is not None:
+            pristine.close()
+
+
+def _execute(run, ctx, subj, kind, cls_short, pristine):
     live = _fresh(subj)
     n_fit_ok = 0
     n_fit_calls = 0
@@ -468,6 +492,24 @@ def execute(run):
                 b = obs.observe(twin, kind, data)
                 keys = obs.diff(a, b)
                 ctx.stats['twin_comparisons'] += 1
+                if pristine is not None and not keys and not op.get('arm'):
+                    # the same reference once more, from a process nothing in this run touched
+                    ref = pristine.call('checks.c19', 'pristine_twin', subj, op['data'],
+                                        op['state'], p[1], op.get('pseed', 0) + 1, False)
+                    ctx.stats['pristine_process_twins'] += 1
+                    if ref['outcome'] != 'ok':
+                        ctx.violate('O1_fit_outcome_equals_pristine_process_fit',
+                                    _subject_name(subj, 'fit'),
+                                    'fit returned here, raised %s in a pristine process'
+                                    % ref['outcome'], **cond)
+                    else:
+                        k2 = obs.diff(a, ref['obs'])
+                        if k2:
+                            ctx.violate('O1_fit_equals_fit_in_pristine_process',
+                                        _subject_name(subj, 'fit'),
+                                        'observations differ in %s from a fresh object fitted in '
+                                        'a pristine process (history %s)' % (k2, seq),
+                                        differs=k2, **cond)
                 if keys:
                     oracle = 'O1_refit_equals_fresh_fit' if refit else (
                         'O5_independent_of_uninitialised_memory' if kind == 'vine'
